@@ -30,6 +30,11 @@ def Eff.noData : Eff → Bool
   | .replace => false
   | .copymode => false
   | .closeTmp => false
+  | .truncate _ => false
+  | .openW _ => false
+  | .seekW _ _ => false
+  | .writeW _ _ => false
+  | .closeW _ => false
   | _ => true
 
 /-- Well-formed initial state: every named inode is below the allocation counter, the temporary
@@ -38,6 +43,7 @@ structure WF (s : St) : Prop where
   named : ∀ p i, s.fs.file p = some i → i < s.fs.next
   fresh : s.fs.file .tmpFile = none
   nofd : s.fd = none
+  nowfd : ∀ w, s.wfd w = none
 
 /-- "Nothing the caller can see has changed since `s0`" — the invariant of every state before
 `os.replace` and of every state of a failed save. -/
@@ -49,13 +55,15 @@ structure Old (s0 s : St) : Prop where
   next : s0.fs.next ≤ s.fs.next
   tmp : ∀ i, s.fs.file .tmpFile = some i → s0.fs.next ≤ i
   fd : ∀ i, s.fd = some i → s0.fs.next ≤ i
+  wfd : ∀ w i p, s.wfd w = some (i, p) → s0.fs.next ≤ i
   valid : s.valid = s0.valid
   mapped : ∀ i, s.mapped i = s0.mapped i ∨ s.mapped i = none
   replaced : s.replaced = s0.replaced
 
 theorem Old.refl (s : St) (h : WF s) : Old s s :=
   ⟨fun _ => rfl, fun _ => rfl, fun _ _ => rfl, fun _ _ => rfl, Nat.le_refl _,
-   fun i hi => by simp [h.fresh] at hi, fun i hi => by simp [h.nofd] at hi, rfl, fun _ => Or.inl rfl, rfl⟩
+   fun i hi => by simp [h.fresh] at hi, fun i hi => by simp [h.nofd] at hi,
+   fun w i p hw => by simp [h.nowfd] at hw, rfl, fun _ => Or.inl rfl, rfl⟩
 
 theorem old_apply (env : Env) {s0 s : St} (e : Eff) (he : e.tmpOnly = true) (h : Old s0 s) :
     Old s0 (apply env s e) := by
@@ -63,20 +71,20 @@ theorem old_apply (env : Env) {s0 s : St} (e : Eff) (he : e.tmpOnly = true) (h :
   | replace => simp [Eff.tmpOnly] at he
   | invalidate i => simp [Eff.tmpOnly] at he
   | mkdtemp =>
-    exact ⟨h.user, fun n => by simp [apply, upd, h.udir], h.data, h.mode, h.next, h.tmp, h.fd, h.valid,
+    exact ⟨h.user, fun n => by simp [apply, upd, h.udir], h.data, h.mode, h.next, h.tmp, h.fd, h.wfd, h.valid,
       h.mapped, h.replaced⟩
   | openTmp =>
     simp only [apply]
     split
     · rename_i i hi
       have := h.tmp i hi
-      refine ⟨h.user, h.udir, fun j hj => ?_, h.mode, h.next, h.tmp, fun k hk => ?_, h.valid,
+      refine ⟨h.user, h.udir, fun j hj => ?_, h.mode, h.next, h.tmp, fun k hk => ?_, h.wfd, h.valid,
         h.mapped, h.replaced⟩
       · have : j ≠ i := by omega
         simp [upd, this, h.data j hj]
       · simp at hk; omega
     · refine ⟨fun n => ?_, h.udir, fun j hj => ?_, fun j hj => ?_, ?_, fun k hk => ?_, fun k hk => ?_,
-        h.valid, h.mapped, h.replaced⟩
+        h.wfd, h.valid, h.mapped, h.replaced⟩
       · simp [upd, h.user]
       · have := h.next
         have : j ≠ s.fs.next := by omega
@@ -88,21 +96,21 @@ theorem old_apply (env : Env) {s0 s : St} (e : Eff) (he : e.tmpOnly = true) (h :
       · have := h.next; simp [upd] at hk; omega
       · have := h.next; simp at hk; omega
   | callback i => exact h
-  | seek off => exact ⟨h.user, h.udir, h.data, h.mode, h.next, h.tmp, h.fd, h.valid, h.mapped, h.replaced⟩
+  | seek off => exact ⟨h.user, h.udir, h.data, h.mode, h.next, h.tmp, h.fd, h.wfd, h.valid, h.mapped, h.replaced⟩
   | write bs =>
     simp only [apply]
     split
     · rename_i i hi
       have := h.fd i hi
-      refine ⟨h.user, h.udir, fun j hj => ?_, h.mode, h.next, h.tmp, h.fd, h.valid, h.mapped, h.replaced⟩
+      refine ⟨h.user, h.udir, fun j hj => ?_, h.mode, h.next, h.tmp, h.fd, h.wfd, h.valid, h.mapped, h.replaced⟩
       have : j ≠ i := by omega
       simp [upd, this, h.data j hj]
     · exact h
   | closeTmp =>
-    exact ⟨h.user, h.udir, h.data, h.mode, h.next, h.tmp, fun i hi => by simp [apply] at hi, h.valid,
+    exact ⟨h.user, h.udir, h.data, h.mode, h.next, h.tmp, fun i hi => by simp [apply] at hi, h.wfd, h.valid,
       h.mapped, h.replaced⟩
   | release i =>
-    refine ⟨h.user, h.udir, h.data, h.mode, h.next, h.tmp, h.fd, h.valid, fun k => ?_, h.replaced⟩
+    refine ⟨h.user, h.udir, h.data, h.mode, h.next, h.tmp, h.fd, h.wfd, h.valid, fun k => ?_, h.replaced⟩
     by_cases hk : k = i
     · right; simp [apply, upd, hk]
     · simp [apply, upd, hk]; exact h.mapped k
@@ -111,12 +119,12 @@ theorem old_apply (env : Env) {s0 s : St} (e : Eff) (he : e.tmpOnly = true) (h :
     split
     · rename_i d t hd ht
       have := h.tmp t ht
-      refine ⟨h.user, h.udir, h.data, fun j hj => ?_, h.next, h.tmp, h.fd, h.valid, h.mapped, h.replaced⟩
+      refine ⟨h.user, h.udir, h.data, fun j hj => ?_, h.next, h.tmp, h.fd, h.wfd, h.valid, h.mapped, h.replaced⟩
       have : j ≠ t := by omega
       simp [upd, this, h.mode j hj]
     · exact h
   | removeTmp =>
-    refine ⟨fun n => ?_, h.udir, h.data, h.mode, h.next, fun i hi => ?_, h.fd, h.valid, h.mapped,
+    refine ⟨fun n => ?_, h.udir, h.data, h.mode, h.next, fun i hi => ?_, h.fd, h.wfd, h.valid, h.mapped,
       h.replaced⟩
     · simp [apply, upd, h.user]
     · simp [apply, upd] at hi
@@ -124,15 +132,70 @@ theorem old_apply (env : Env) {s0 s : St} (e : Eff) (he : e.tmpOnly = true) (h :
     simp only [apply]
     split
     · exact h
-    · exact ⟨h.user, fun n => by simp [upd, h.udir], h.data, h.mode, h.next, h.tmp, h.fd, h.valid,
+    · exact ⟨h.user, fun n => by simp [upd, h.udir], h.data, h.mode, h.next, h.tmp, h.fd, h.wfd, h.valid,
         h.mapped, h.replaced⟩
   | loadSmall i e => simp [Eff.tmpOnly] at he
+  | truncate n =>
+    simp only [apply]
+    split
+    · rename_i i hi
+      have := h.fd i hi
+      refine ⟨h.user, h.udir, fun j hj => ?_, h.mode, h.next, h.tmp, h.fd, h.wfd, h.valid, h.mapped, h.replaced⟩
+      have : j ≠ i := by omega
+      simp [upd, this, h.data j hj]
+    · exact h
+  | openW w =>
+    simp only [apply]
+    split
+    · rename_i i hi
+      have := h.tmp i hi
+      refine ⟨h.user, h.udir, h.data, h.mode, h.next, h.tmp, h.fd, fun w' i' p' hw => ?_, h.valid, h.mapped,
+        h.replaced⟩
+      simp only [upd] at hw
+      split at hw
+      · simp at hw; omega
+      · exact h.wfd w' i' p' hw
+    · exact h
+  | seekW w off =>
+    simp only [apply]
+    split
+    · rename_i i p0 hi
+      have := h.wfd w i p0 hi
+      refine ⟨h.user, h.udir, h.data, h.mode, h.next, h.tmp, h.fd, fun w' i' p' hw => ?_, h.valid, h.mapped,
+        h.replaced⟩
+      simp only [upd] at hw
+      split at hw
+      · simp at hw; omega
+      · exact h.wfd w' i' p' hw
+    · exact h
+  | writeW w bs =>
+    simp only [apply]
+    split
+    · rename_i i p0 hi
+      have := h.wfd w i p0 hi
+      refine ⟨h.user, h.udir, fun j hj => ?_, h.mode, h.next, h.tmp, h.fd, fun w' i' p' hw => ?_, h.valid,
+        h.mapped, h.replaced⟩
+      · have : j ≠ i := by omega
+        simp [upd, this, h.data j hj]
+      · simp only [upd] at hw
+        split at hw
+        · simp at hw; omega
+        · exact h.wfd w' i' p' hw
+    · exact h
+  | closeW w =>
+    refine ⟨h.user, h.udir, h.data, h.mode, h.next, h.tmp, h.fd, fun w' i' p' hw => ?_, h.valid, h.mapped,
+      h.replaced⟩
+    simp only [apply, upd] at hw
+    split at hw
+    · simp at hw
+    · exact h.wfd w' i' p' hw
 
 /-- A failing effect never breaks `Old` (whatever the effect: a failing `os.replace` does nothing). -/
 theorem old_partial (env : Env) {s0 s : St} (e : Eff) (p : Nat) (h : Old s0 s) :
     Old s0 (applyPartial env s e p) := by
   cases e <;> try exact h
-  exact old_apply env (.write _) rfl h
+  · exact old_apply env (.write _) rfl h
+  · exact old_apply env (.writeW _ _) rfl h
 
 theorem runList_cons_some (env : Env) {f : Nat → Option Nat} {n p : Nat} (h : f n = some p)
     (e : Eff) (es : List Eff) (s : St) :
@@ -312,6 +375,11 @@ theorem frozen_apply (env : Env) {s1 s : St} (e : Eff) (he : e.noData = true) (h
     · exact h
     · exact ⟨h.user, h.data, h.mode, h.next, h.fd, h.tmp, h.replaced⟩
   | closeTmp => simp [Eff.noData] at he
+  | truncate n => simp [Eff.noData] at he
+  | openW w => simp [Eff.noData] at he
+  | seekW w o => simp [Eff.noData] at he
+  | writeW w bs => simp [Eff.noData] at he
+  | closeW w => simp [Eff.noData] at he
   | _ => exact ⟨h.user, h.data, h.mode, h.next, h.fd, h.tmp, h.replaced⟩
 
 theorem frozen_partial (env : Env) {s1 s : St} (e : Eff) (p : Nat) (he : e.noData = true)
@@ -1011,6 +1079,10 @@ theorem named_apply (env : Env) (e : Eff) (s : St) (h : Named s) : Named (apply 
   | write bs => simp only [apply]; split <;> exact h
   | copymode => simp only [apply]; split <;> exact h
   | rmdirTmp => simp only [apply]; split <;> exact h
+  | truncate n => simp only [apply]; split <;> exact h
+  | openW w => simp only [apply]; split <;> exact h
+  | seekW w o => simp only [apply]; split <;> exact h
+  | writeW w bs => simp only [apply]; split <;> exact h
   | _ => exact h
 
 theorem named_partial (env : Env) (e : Eff) (p : Nat) (s : St) (h : Named s) :
@@ -1105,6 +1177,55 @@ theorem save_kept (cfg : Cfg) (s : St) (hs : WF s) (n : Nat) (f : Nat → Option
     · exact keptBut_of_old h1
     · exact keptBut_of_post hr h1.frozen
 
+/-- Effects of the serial writer and of the handlers: they never touch the workers' handles. -/
+def Eff.noW : Eff → Bool
+  | .openW _ => false
+  | .seekW _ _ => false
+  | .writeW _ _ => false
+  | .closeW _ => false
+  | _ => true
+
+theorem wfd_apply (env : Env) (e : Eff) (he : e.noW = true) (s : St) : (apply env s e).wfd = s.wfd := by
+  cases e <;> first | rfl | (simp only [apply]; split <;> rfl) | simp [Eff.noW] at he
+
+theorem wfd_partial (env : Env) (e : Eff) (he : e.noW = true) (p : Nat) (s : St) :
+    (applyPartial env s e p).wfd = s.wfd := by
+  cases e <;> first | rfl | exact wfd_apply env _ rfl s | simp [Eff.noW] at he
+
+theorem writeEffs_noW (cb : Bool) : ∀ (ts : List Tensor) (i : Nat), ∀ e ∈ writeEffs cb i ts, e.noW = true
+  | [], _, e, he => by simp [writeEffs] at he
+  | x :: ts, i, e, he => by
+    simp only [writeEffs, tensorEffs, List.mem_append, List.mem_map] at he
+    rcases he with ((he | he) | ⟨c, _, rfl⟩) | he
+    · split at he <;> simp at he; subst he; rfl
+    · simp at he; subst he; rfl
+    · rfl
+    · exact writeEffs_noW cb ts (i + 1) e he
+
+theorem tryBody_noW (cfg : Cfg) (s0 : St) : ∀ e ∈ tryBody cfg s0, e.noW = true := by
+  intro e he
+  simp only [tryBody, List.mem_append, List.mem_map, List.mem_singleton] at he
+  rcases he with (((rfl | he) | rfl) | ⟨i, _, rfl⟩) | he
+  · rfl
+  · exact writeEffs_noW cfg.cb cfg.tensors 0 e he
+  · rfl
+  · rfl
+  · split at he <;> simp at he; subst he; rfl
+
+theorem postEffs_noW (cfg : Cfg) (s0 : St) : ∀ e ∈ postEffs cfg s0, e.noW = true := by
+  intro e he
+  simp only [postEffs, List.mem_map] at he
+  rcases he with ⟨i, _, rfl⟩
+  rfl
+
+/-- The serial save never touches the workers' handles. -/
+theorem save_wfd (cfg : Cfg) (f : Nat → Option Nat) (n0 : Nat) (s0 : St) :
+    (save cfg f n0 s0).final.wfd = s0.wfd :=
+  (saveWith_inv_all cfg.env (tryBody cfg s0) (postEffs cfg s0) (P := fun s => s.wfd = s0.wfd) Eff.noW
+    (tryBody_noW cfg s0) (postEffs_noW cfg s0) ⟨rfl, rfl, rfl, rfl⟩
+    (fun e he s h => by rw [wfd_apply cfg.env e he s]; exact h)
+    (fun e he p s h => by rw [wfd_partial cfg.env e he p s]; exact h) f n0 s0 rfl).1
+
 /-- A save that returned normally ends after its replace. -/
 theorem save_ok_post (cfg : Cfg) (s0 : St) (h0 : WF s0) (n0 : Nat) (f : Nat → Option Nat)
     (hok : (save cfg f n0 s0).faulted = false) :
@@ -1132,7 +1253,7 @@ theorem save_ok_wf (cfg : Cfg) (s0 : St) (h0 : WF s0) (n0 : Nat) (f : Nat → Op
     (hok : (save cfg f n0 s0).faulted = false) : WF (save cfg f n0 s0).final := by
   have hp := save_ok_post cfg s0 h0 n0 f hok
   have hr := save_afterReplace cfg s0 h0 n0
-  refine ⟨?_, hp.frozen.tmp hr.tmp, by rw [hp.frozen.fd, hr.fd]⟩
+  refine ⟨?_, hp.frozen.tmp hr.tmp, by rw [hp.frozen.fd, hr.fd], by rw [save_wfd]; exact h0.nowfd⟩
   exact (saveWith_inv_all cfg.env (tryBody cfg s0) (postEffs cfg s0) (P := Named) (fun _ => true)
     (fun _ _ => rfl) (fun _ _ => rfl) ⟨rfl, rfl, rfl, rfl⟩
     (fun e _ s h => named_apply cfg.env e s h) (fun e _ p s h => named_partial cfg.env e p s h)
@@ -1189,6 +1310,7 @@ structure SameFS (s0 s : St) : Prop where
   fd : s.fd = s0.fd
   valid : s.valid = s0.valid
   replaced : s.replaced = s0.replaced
+  wfd : s.wfd = s0.wfd
 
 theorem loadEffs_mem : ∀ (small : List (Nat × Ext)) (e : Eff), e ∈ loadEffs small →
     (∃ i x, e = .loadSmall i x) ∨ (∃ i, e = .release i)
@@ -1203,16 +1325,17 @@ theorem loadEffs_mem : ∀ (small : List (Nat × Ext)) (e : Eff), e ∈ loadEffs
 theorem load_phase (env : Env) (f : Nat → Option Nat) (small : List (Nat × Ext)) (n : Nat) (s0 : St) :
     SameFS s0 (runList env f (loadEffs small) n s0).final ∧
     ∀ st ∈ (runList env f (loadEffs small) n s0).steps, SameFS s0 st.st := by
-  refine runList_inv env f (loadEffs small) n s0 ⟨rfl, rfl, rfl, rfl⟩ ?_ ?_
+  refine runList_inv env f (loadEffs small) n s0 ⟨rfl, rfl, rfl, rfl, rfl⟩ ?_ ?_
   · intro e he s hs
     rcases loadEffs_mem small e he with ⟨i, x, rfl⟩ | ⟨i, rfl⟩
-    · exact ⟨hs.fs, hs.fd, hs.valid, hs.replaced⟩
-    · exact ⟨hs.fs, hs.fd, hs.valid, hs.replaced⟩
+    · exact ⟨hs.fs, hs.fd, hs.valid, hs.replaced, hs.wfd⟩
+    · exact ⟨hs.fs, hs.fd, hs.valid, hs.replaced, hs.wfd⟩
   · intro e he s p hs
     rcases loadEffs_mem small e he with ⟨i, x, rfl⟩ | ⟨i, rfl⟩ <;> exact hs
 
 theorem sameFS_wf {s0 s : St} (h0 : WF s0) (h : SameFS s0 s) : WF s :=
-  ⟨by rw [h.fs]; exact h0.named, by rw [h.fs]; exact h0.fresh, by rw [h.fd]; exact h0.nofd⟩
+  ⟨by rw [h.fs]; exact h0.named, by rw [h.fs]; exact h0.fresh, by rw [h.fd]; exact h0.nofd,
+   by rw [h.wfd]; exact h0.nowfd⟩
 
 theorem sameFS_content {s0 s : St} (h : SameFS s0 s) (p : Path) : content s p = content s0 p := by
   simp [content, h.fs]
@@ -1292,5 +1415,164 @@ theorem loads_spec (env : Env) (s0 : St) :
     · intro k hk
       simp only [List.map_cons, List.mem_cons, not_or] at hk
       rw [ih.2 k hk.2]; exact h1.2.2.2.2 k hk.1
+
+
+/-! ### What `overwritten` / `invalidated` contain; the load-first step (helper lemmas, not property theorems) -/
+
+/-- Membership in `overwritten` means what `_write_external_data` 464-469 computes: the tensor at
+that position is external and its path and the destination are the same file (same inode). -/
+theorem overwritten_spec (fs : FS) (dest : String) :
+    ∀ (ts : List Tensor) (b i : Nat), i ∈ overwrittenFrom fs dest b ts ↔
+      ∃ t e, ts[i - b]? = some t ∧ b ≤ i ∧ t.ext = some e ∧
+        sameFile fs (.user e.path) (.user dest) = true
+  | [], b, i => by simp [overwrittenFrom]
+  | t :: ts, b, i => by
+    simp only [overwrittenFrom, List.mem_append]
+    rw [overwritten_spec fs dest ts (b + 1) i]
+    constructor
+    · rintro (h | ⟨t', e, h1, h2, h3, h4⟩)
+      · cases he : t.ext with
+        | none => simp [he] at h
+        | some e =>
+          simp only [he] at h
+          split at h
+          · rename_i hs
+            simp at h; subst h
+            exact ⟨t, e, by simp, Nat.le_refl _, he, hs⟩
+          · simp at h
+      · refine ⟨t', e, ?_, by omega, h3, h4⟩
+        have : i - b = (i - (b + 1)) + 1 := by omega
+        rw [this]; simpa using h1
+    · rintro ⟨t', e, h1, h2, h3, h4⟩
+      by_cases hib : i = b
+      · left
+        subst hib
+        simp at h1; subst h1
+        simp [h3, h4]
+      · right
+        refine ⟨t', e, ?_, by omega, h3, h4⟩
+        have : i - b = (i - (b + 1)) + 1 := by omega
+        rw [this] at h1; simpa using h1
+
+/-- Membership in `invalidated`: the tensor at that position is external, its path and the
+destination were the same file before the save, and its path *is* the destination name. -/
+theorem invalidated_spec (fs : FS) (dest : String) :
+    ∀ (ts : List Tensor) (b i : Nat), i ∈ invalidatedFrom fs dest b ts ↔
+      ∃ t e, ts[i - b]? = some t ∧ b ≤ i ∧ t.ext = some e ∧
+        sameFile fs (.user e.path) (.user dest) = true ∧ e.path = dest
+  | [], b, i => by simp [invalidatedFrom]
+  | t :: ts, b, i => by
+    simp only [invalidatedFrom, List.mem_append]
+    rw [invalidated_spec fs dest ts (b + 1) i]
+    constructor
+    · rintro (h | ⟨t', e, h1, h2, h3, h4⟩)
+      · cases he : t.ext with
+        | none => simp [he] at h
+        | some e =>
+          simp only [he] at h
+          split at h
+          · rename_i hs
+            simp at h; subst h
+            simp only [Bool.and_eq_true, beq_iff_eq] at hs
+            exact ⟨t, e, by simp, Nat.le_refl _, he, hs.1, hs.2⟩
+          · simp at h
+      · refine ⟨t', e, ?_, by omega, h3, h4⟩
+        have : i - b = (i - (b + 1)) + 1 := by omega
+        rw [this]; simpa using h1
+    · rintro ⟨t', e, h1, h2, h3, h4, h5⟩
+      by_cases hib : i = b
+      · left
+        subst hib
+        simp at h1; subst h1
+        rw [h5] at h4
+        simp [h3, h4, h5]
+      · right
+        refine ⟨t', e, ?_, by omega, h3, h4, h5⟩
+        have : i - b = (i - (b + 1)) + 1 := by omega
+        rw [this] at h1; simpa using h1
+
+/-- Every invalidated tensor is one of the collected (released) ones. -/
+theorem invalidated_sub (fs : FS) (dest : String) (ts : List Tensor) (b i : Nat)
+    (h : i ∈ invalidatedFrom fs dest b ts) : i ∈ overwrittenFrom fs dest b ts := by
+  rcases (invalidated_spec fs dest ts b i).mp h with ⟨t, e, h1, h2, h3, h4, _⟩
+  exact (overwritten_spec fs dest ts b i).mpr ⟨t, e, h1, h2, h3, h4⟩
+
+/-- `small_loaded_first` (the mechanism of `unload_from_model` 1058-1065): when the load
+phase completes, the memory copy of every small external tensor is what the tensor read *before*
+the save started — in every later state, whatever then happens to the data file (the save never
+touches the copies), for every fault assignment of the save. -/
+theorem small_loaded_first (cfg : Cfg) (small : List (Nat × Ext))
+    (hnd : (small.map (·.1)).Nodup) (s0 : St) (f : Nat → Option Nat)
+    (hok : (runList cfg.env f (loadEffs small) 0 s0).faulted = false) :
+    ∀ p ∈ small, (unload cfg small f s0).final.mem p.1 = readT s0 p.1 p.2 := by
+  intro p hp
+  have hl := loads_spec cfg.env s0 small s0 hnd rfl rfl (fun _ _ => rfl)
+  have hfin : (runList cfg.env f (loadEffs small) 0 s0).final = applyAll cfg.env (loadEffs small) s0 := by
+    rw [runList_nofault cfg.env f _ _ _ hok, runList_none_final]
+  unfold unload
+  simp only [hok, Bool.false_eq_true, if_false]
+  rw [(save_mem cfg f _ _).1, hfin]
+  exact hl.1 p hp
+
+
+/-! ### Any fault at or before `os.replace` -/
+
+/-- Some effect at or before `os.replace` fails (whatever else fails, before or after, including in
+the handlers): the exception leaves and every visited state, and the final one, is `Old`. -/
+theorem saveWith_early_fault (env : Env) (body post : List Eff) (hb : ∀ e ∈ body, e.tmpOnly = true)
+    (s0 : St) (h0 : WF s0) (n0 : Nat) (f : Nat → Option Nat) (k p : Nat) (hk : f k = some p)
+    (hlo : n0 ≤ k) (hhi : k ≤ n0 + 1 + body.length) :
+    (saveWith env body post f n0 s0).faulted = true ∧ Old s0 (saveWith env body post f n0 s0).final ∧
+    ∀ st ∈ (saveWith env body post f n0 s0).steps, Old s0 st.st := by
+  cases hf0 : f n0 with
+  | some q =>
+    rw [saveWith_fault_mkdtemp env body post hf0]
+    refine ⟨rfl, Old.refl s0 h0, ?_⟩
+    intro st hst
+    simp only [List.mem_singleton] at hst
+    subst hst
+    exact Old.refl s0 h0
+  | none =>
+    have hkn : k ≠ n0 := by intro h; rw [h, hf0] at hk; simp at hk
+    rw [saveWith_ok_mkdtemp env body post hf0]
+    have tp := twoPhase_old_frozen env body [] (by simp) s0 h0 n0
+    have hbf := runList_fault_in_range env f hk (body ++ [.replace]) (n0 + 1) (apply env s0 .mkdtemp)
+      (by omega) (by simp; omega)
+    have h1 : Old s0 (apply env s0 .mkdtemp) := old_apply env .mkdtemp rfl (Old.refl s0 h0)
+    rcases try_block tp f hb with ⟨_, hbo, hbs⟩ | ⟨hnf, _, _⟩
+    · simp only [hbf, Bool.true_or, if_true]
+      have hc := runList_old env f [.removeTmp, .rmdirTmp] cleanup_tmpOnly
+        (n0 + 1 + (runList env f (body ++ [.replace]) (n0 + 1) (apply env s0 .mkdtemp)).steps.length) _ hbo
+      refine ⟨trivial, hc.1, ?_⟩
+      intro st hst
+      simp only [List.mem_cons, List.mem_append] at hst
+      rcases hst with rfl | hst | hst
+      · exact h1
+      · exact hbs st hst
+      · exact hc.2 st hst
+    · rw [hbf] at hnf; simp at hnf
+
+theorem tryBodyWith_tmpOnly (cfg : Cfg) (s0 : St) (writer : List Eff) (hw : ∀ e ∈ writer, e.tmpOnly = true) :
+    ∀ e ∈ tryBodyWith cfg s0 writer, e.tmpOnly = true := by
+  intro e he
+  simp only [tryBodyWith, List.mem_append, List.mem_map] at he
+  rcases he with (he | ⟨i, _, rfl⟩) | he
+  · exact hw e he
+  · rfl
+  · split at he <;> simp at he; subst he; rfl
+
+/-- A block that did not fault met no fault index. -/
+theorem runList_nofault_none (env : Env) (f : Nat → Option Nat) :
+    ∀ (es : List Eff) (n : Nat) (s : St), (runList env f es n s).faulted = false →
+      ∀ j, n ≤ j → j < n + es.length → f j = none
+  | [], _, _, _, j, h1, h2 => by simp at h2; omega
+  | e :: es, n, s, h, j, h1, h2 => by
+    cases hn : f n with
+    | some q => rw [runList_cons_some env hn] at h; simp at h
+    | none =>
+      rw [runList_cons_none env hn] at h
+      by_cases hj : j = n
+      · rw [hj]; exact hn
+      · exact runList_nofault_none env f es (n + 1) _ h j (by omega) (by simp at h2; omega)
 
 end IrVerif.AtomicSave
